@@ -226,7 +226,52 @@ def gen_lists(r, i):
     return c
 
 
+def gen_oneshot(r, i):
+    """nng_aio_set_expire is one-shot (nni_aio_finish_impl clears a_use_expire): an operation that used an absolute
+    expiry completes through the provider (or synchronously, or by its expiry), and the NEXT operation on the same aio is
+    started WITHOUT configuring the timeout again - the relative timeout configured earlier must apply (this is what a
+    user of surv0_ctx_recv does, which clamps the user's aio to the survey deadline with nni_aio_set_expire); virtual
+    time then runs past that timeout.  A start that nni_aio_start refuses (expiry already passed, abort pending) does
+    not consume the absolute expiry: the next start is governed by it again."""
+    c = Case("g", tag="oneshot")
+    t = r.choice(["5", "11", "21"])
+    far = r.choice([31, 41, 51])
+    fam = r.weighted([("cmp", 4), ("direct", 2), ("cb", 2), ("refused", 2), ("expired", 2)])
+    c.tag = "oneshot-" + fam
+    if fam == "cmp":
+        own = r.chance(1, 2)
+        u = [f"to:{t}", f"ex:{far}", "sub"] + (["cmp:0"] if own else []) + ["wt", "sub"] + (["jn:V"] if r.chance(1, 2) else []) + ["wt"]
+        c.actors = [("U", u)]
+        if not own:
+            c.actors.append(("C", ["y"] * r.below(4) + [f"cmp:{r.choice(CMPRV)}"] + (["y"] * r.below(3) + ["cmp:0"] if r.chance(1, 3) else [])))
+    elif fam == "direct":
+        u = [f"to:{t}", f"ex:{far}"] + (["skip"] if r.chance(1, 3) else []) + [f"subi:{r.choice(CMPRV)}", "wt", "sub", "wt"]
+        c.actors = [("U", u)]
+    elif fam == "cb":
+        # the callback of the operation that used the absolute expiry starts the next one
+        c.cb = (r.range(1, 2), "sub")
+        c.actors = [("U", [f"to:{t}", f"ex:{far}", "sub", "wt"]),
+                    ("C", ["y"] * r.below(4) + ["cmp:0"] + (["y"] * r.below(4) + ["cmp:0"] if r.chance(1, 2) else []))]
+    elif fam == "refused":
+        # the expiry has passed when the operation starts: refused with NNG_ETIMEDOUT, twice (the flag is not consumed);
+        # then a relative timeout again
+        u = [f"to:{r.choice(['inf', t])}", "ex:5", "adv:6", "sub", "wt", "sub", "wt"] + ([f"to:{t}", "sub", "wt"] if r.chance(1, 2) else [])
+        c.actors = [("U", u)]
+    else:
+        # the absolute expiry itself ends the first operation (cancel function -> nni_aio_finish)
+        c.actors = [("U", [f"to:{t}", f"ex:{r.choice([5, 11])}", "sub", "wt", "sub", "wt"])]
+    adv = []
+    for _ in range(r.range(1, 3)):
+        adv += ["y"] * r.below(3) + [f"adv:{r.choice(EVEN)}"]
+    c.actors.append(("V", adv))
+    if fam != "refused" and r.chance(1, 3):
+        c.actors.append(("B", ["y"] * r.below(5) + [r.choice(["can", f"abt:{r.choice(ABRV)}"])]))
+    return c
+
+
 def gen_any(r, i):
+    if i % 16 == 14:
+        return gen_oneshot(r, i)
     k = i % 8
     if k in (3, 7):
         return gen_ext(r, i)
@@ -559,7 +604,8 @@ def run(tier, seed, replay=None):
                             "Driver/Aio.lean (event parser, subset-construction acceptor)", "gcc ASan/UBSan"],
            "theorems": st.discharged, "axioms": st.axioms, "broken": st.broken,
            "evaluations": len(jobs), "distinct_nontrivial": distinct, "distinct_traces": traces,
-           "rule": "scenario programs for one aio (2-5 concurrent actors: submit on the generic provider / sleep / synchronous completion / absolute expiry, "
+           "rule": "scenario programs for one aio (2-5 concurrent actors: submit on the generic provider / sleep / synchronous completion / absolute expiry "
+                   "(every 16th: absolute expiry, completion, next start without reconfiguring the timeout, time past the relative timeout), "
                    "provider completion, abort/cancel, close, stop, wait, free, virtual-time advance, 0-2 resubmissions from the callback; every 4th on a real provider: "
                    "PULL receive, PUSH send, dialer start) from splitmix64(seed,C02,tier,i) plus corpus/C02; each under 20 schedules (10 random-walk seeds, round-robin, "
                    "9 delay-bounded (offset,len)); thorough adds (offset 0..119) x (len 5,20,80,300) sweeps on the corpus and 40 scenarios; distinct = distinct scenario "
